@@ -67,6 +67,22 @@ class Codec:
         for l in impl + model:
             if l.startswith("BADCASE") or l.startswith("PARSEERROR"):
                 raise MachineryError("malformed case reached a runner: " + l[:300])
+        if getattr(self.chk, "tier", "quick") == "thorough" and cases and not os.environ.get("VERIF_NO_RELEASE_PASS"):
+            # thorough tier: the same cases through library + harness built in the release profile (no debug assertions, no
+            # overflow checks, optimised): whatever the implementation does must not depend on the build profile.  A sample
+            # of at most 20 000 cases per call keeps this a fraction of the run.
+            rel = core.build_harness("release")
+            step = max(1, len(cases) // 20000)
+            # (not compared: races the scheduler decides - bursts of sends against the reader's shutdown - and whether the allocator
+            # happened to hand out the same address again)
+            idx = [i for i in range(0, len(cases), step) if " BB " not in cases[i] and not cases[i].startswith(("DSWAP", "NET", "TLS", "RECONN"))]
+            rimpl = core.run_sharded([rel, "codec"], self.prelude, [cases[i] for i in idx], shards=shards, timeout=timeout)
+            self.chk.count("release-profile-cases", len(idx))
+            for i, r in zip(idx, rimpl):
+                if r != impl[i] and not (r.startswith("CRASH") and impl[i].startswith("CRASH")):
+                    self.chk.violation("the implementation behaves differently when built in the release profile (no debug assertions / overflow checks) than in the dev profile",
+                                       dict(case=cases[i], release=r[:3000], dev=impl[i][:3000]))
+                    break
         # encoding is a function of the message: the harness encodes every message twice and flags a difference
         for k, a in enumerate(impl):
             if " ENC2DIFF " in a:
